@@ -155,6 +155,13 @@ def field (cs : List Nat) (k lo hi : Nat) : Except Err (Option Nat) :=
     | none => .error .valueError
   else .ok none
 
+/-- `if len(qstring) >= 4: year = int(qstring[:4])`, and `ValueError` for a year below
+    `datetime.MINYEAR` (the `fix:` commit: year 0000 is unparseable like month 13). -/
+def yearField (cs : List Nat) : Except Err (Option Nat) :=
+  match field cs 4 0 4 with
+  | .ok (some 0) => .error .valueError
+  | r => r
+
 /-- `if len(qstring) == 20: microsecond = int(qstring[14:])`. -/
 def microField (cs : List Nat) : Except Err (Option Nat) :=
   if cs.length = 20 then
@@ -164,10 +171,10 @@ def microField (cs : List Nat) : Except Err (Option Nat) :=
   else .ok none
 
 /-- `DATETIME._parse_datestring(qstring)` on the cleaned string `YYYY[MM[DD[hh[mm[ss[uuuuuu]]]]]]`:
-    `ValueError` for a non-numeric slice, for a `TimeError` of `adatetime`, for a fully specified
-    date that `datetime()` rejects (year 0) and for a void result (fewer than four characters). -/
+    `ValueError` for a non-numeric slice, for year 0, for a `TimeError` of `adatetime` and for a
+    void result (fewer than four characters). -/
 def parseDatestring (cs : List Nat) : Except Err ADT := do
-  let year ← field cs 4 0 4
+  let year ← yearField cs
   let month ← field cs 6 4 6
   let day ← field cs 8 6 8
   let hour ← field cs 10 8 10
@@ -234,8 +241,8 @@ inductive DQ where
   | term (a : Int)           -- `Term(fieldname, datetime)`: the full-precision term of that instant
   deriving DecidableEq, Repr
 
-/-- `DATETIME.parse_query(fieldname, qstring)`.  (`floor`/`ceil` of an ambiguous date with year 0
-    raise `ValueError` outside the `try`; modelled as `Except`.) -/
+/-- `DATETIME.parse_query(fieldname, qstring)`.  (`floor`/`ceil` are called outside the `try`, hence
+    `Except`; `WM.C13.parse_query_total` shows they cannot fail on a parsed date.) -/
 def parseQuery (cs : List Nat) : Except Err DQ :=
   match parseDatestring cs with
   | .error _ => .ok .error
@@ -280,5 +287,93 @@ def toColumnDatetime (c : Civil) : Int := civilToLong c
 
 /-- `DATETIME.from_column_value(x)` = `long_to_datetime(x)` as a timedelta since `datetime.min`. -/
 def fromColumnDatetime (x : Int) : TD := longToTD x
+
+/-! ## `long_to_datetime`: the inverse calendar (CPython `_ord2ymd`) -/
+
+/-- The month/day step of `_ord2ymd` on the 0-based day of the year `n`:
+    `month = (n + 50) >> 5`, corrected by one when the estimate is too far. -/
+def monthDay (leap : Bool) (n : Nat) : Nat × Nat :=
+  let month := (n + 50) >>> 5
+  let preceding := daysBeforeMonth leap month
+  if preceding > n then
+    (month - 1, n - (preceding - daysInMonth leap (month - 1)) + 1)
+  else (month, n - preceding + 1)
+
+/-- `datetime._ord2ymd(n)`: 400/100/4/1-year cycles, then `monthDay`. -/
+def ord2ymd (n : Nat) : Nat × Nat × Nat :=
+  let n := n - 1
+  let n400 := n / 146097
+  let n := n % 146097
+  let n100 := n / 36524
+  let n := n % 36524
+  let n4 := n / 1461
+  let n := n % 1461
+  let n1 := n / 365
+  let n := n % 365
+  let year := n400 * 400 + 1 + n100 * 100 + n4 * 4 + n1
+  if n1 = 4 ∨ n100 = 4 then (year - 1, 12, 31)
+  else
+    let leap : Bool := decide (n1 = 3 ∧ (n4 ≠ 24 ∨ n100 = 3))
+    let md := monthDay leap n
+    (year, md.1, md.2)
+
+/-- `long_to_datetime(x)` = `datetime.min + timedelta(days, seconds, microseconds)`; `none` is the
+    `OverflowError` of a date outside years 1..9999. -/
+def longToCivil (x : Int) : Option Civil :=
+  let t := longToTD x
+  if 0 ≤ t.days ∧ t.days ≤ 3652058 then
+    let ymd := ord2ymd (t.days.toNat + 1)
+    let s := t.seconds.toNat
+    some ⟨ymd.1, ymd.2.1, ymd.2.2, s / 3600, s / 60 % 60, s % 60, t.micros.toNat⟩
+  else none
+
+/-! ## BOOLEAN -/
+
+/-- What a BOOLEAN field can be handed, by how the code classifies it. -/
+inductive BIn where
+  | obj (b : Bool)               -- a bool, or any non-string object with that `bool()`
+  | strTrue                      -- a string whose `lower()` is in `trues` (t, true, yes, 1)
+  | strFalse                     -- a string whose `lower()` is in `falses` (f, false, no, 0)
+  | strOther (nonempty : Bool)   -- any other string except "*"; `bool(x)` is `x != ""`
+  | star                         -- the string "*"
+  deriving DecidableEq, Repr
+
+/-- `BOOLEAN._obj_to_bool(x)`. -/
+def objToBool : BIn → Bool
+  | .obj b => b
+  | .strTrue => true
+  | .strFalse => false
+  | .strOther ne => ne
+  | .star => true
+
+/-- `BOOLEAN.to_bytes(x)` (`b"t"` = 116, `b"f"` = 102), after the `fix:` commit: one reading of a
+    value at indexing and at query time.  Also the field's column value (`FieldType.to_column_value`
+    is `to_bytes`; BOOLEAN has no `sortable` option). -/
+def boolToBytes (x : BIn) : List Nat := [if objToBool x then 116 else 102]
+
+/-- `BOOLEAN.to_bytes` of the pinned tree: a string is true only inside `trues`. -/
+def boolToBytesOld : BIn → List Nat
+  | .obj b => [if b then 116 else 102]
+  | .strTrue => [116]
+  | _ => [102]
+
+/-- `BOOLEAN.index(bit)`: the single term of the document. -/
+def boolIndex (x : BIn) : List (List Nat) := [boolToBytes x]
+
+/-- What `BOOLEAN.parse_query` returns. -/
+inductive BQ where
+  | every                -- `Every(fieldname)` for "*"
+  | term (b : Bool)      -- `Term(fieldname, <bool>)`, whose matcher looks up `to_bytes(<bool>)`
+  deriving DecidableEq, Repr
+
+/-- `BOOLEAN.parse_query(fieldname, qstring)`. -/
+def boolParseQuery : BIn → BQ
+  | .star => .every
+  | x => .term (objToBool x)
+
+/-- Does the query match a document that owns the terms `ts` in the field? -/
+def BQ.matchesTerms : BQ → List (List Nat) → Bool
+  | .every, ts => !ts.isEmpty
+  | .term b, ts => ts.any (· == boolToBytes (.obj b))
 
 end WM.NumericDate
